@@ -7,6 +7,8 @@
 #include <QFile>
 #include <QThread>
 #include <QTimer>
+#include <QEventLoop>
+#include <string>
 #include "qtlogger/qtlogger.h"
 
 using namespace QtLogger;
@@ -25,8 +27,39 @@ struct SlowSink : Sink {
     }
 };
 
+// history mode: c04real hist <ops> <outfile> [pause-ms]   ops as in engine/vsched/vsx.cpp (A a M L R X E), then the handler is destroyed.
+// A pause after every operation lets the worker run ahead (the schedule in which Qt discards events of an application-less thread).
+static int historyMode(int argc, char **argv)
+{
+    std::string hist = argv[2];
+    g_out = QString::fromLocal8Bit(argv[3]);
+    int pause = argc > 4 ? atoi(argv[4]) : 60;
+    g_main = QThread::currentThreadId();
+    QCoreApplication *app = nullptr;
+    Logger *lg = new Logger;
+    lg->append(SinkPtr(new SlowSink));
+    int seq = 0;
+    static int ac = 1; static char *av[] = { argv[0], nullptr };
+    for (char op : hist) {
+        switch (op) {
+        case 'A': if (!app) app = new QCoreApplication(ac, av); break;
+        case 'a': delete app; app = nullptr; break;
+        case 'M': lg->moveToOwnThread(); break;
+        case 'L': { QMessageLogContext ctx("f.cpp", 1, "fn", "cat"); lg->processMessage(QtDebugMsg, ctx, QStringLiteral("m%1").arg(seq++)); break; }
+        case 'R': lg->resetOwnThread(); break;
+        case 'X': if (app) { QTimer::singleShot(0, app, &QCoreApplication::quit); app->exec(); } break;
+        case 'E': if (app) { QEventLoop loop; QTimer::singleShot(30, &loop, &QEventLoop::quit); loop.exec(); } break;
+        }
+        QThread::msleep(pause);
+    }
+    delete lg;
+    delete app;
+    return 0;
+}
+
 int main(int argc, char **argv)
 {
+    if (argc >= 4 && std::string(argv[1]) == "hist") return historyMode(argc, argv);
     if (argc < 4) return 2;
     int path = atoi(argv[1]), backlog = atoi(argv[2]);
     g_out = QString::fromLocal8Bit(argv[3]);
